@@ -291,7 +291,7 @@ Lemma verify_ownership_np b58key verify marshal sd seq doc vmid sg :
 Proof.
   unfold verify_ownership. destruct (vm_from _ _ _) as [vm|]; [|discriminate].
   destruct (negb _); [discriminate|]. destruct (b58key _); [|discriminate].
-  destruct (verify _ _ _); discriminate.
+  destruct (verify _ _ _ && _); discriminate.
 Qed.
 
 Lemma create_did_np b58key verify marshal st did doc vmid sg :
